@@ -701,7 +701,7 @@ func (w *World) point(pt string, obj interface{}, args ...interface{}) {
 		if ri := w.reqGid[gid]; ri != nil {
 			// the clock and the lifetime are the true ones (harness clock, what the origin granted),
 			// not the values the code stamped on the entry
-			ev := Event{"op": "Publish", "e": w.entID(obj), "d": ri.Disp, "k": ri.Key, "st": st.HasStore,
+			ev := Event{"op": "Publish", "r": ri.Rid, "e": w.entID(obj), "d": ri.Disp, "k": ri.Key, "st": st.HasStore,
 				"v": respVer(st.Response), "now": w.Clock(), "cnow": w.last(gid), "ttl": ri.used.Granted(), "code_ttl": int(st.ExpiredAt - st.CreatedAt)}
 			if w.tickInside {
 				// the clock ticked inside this step: the moment of the publication is the one the code stamped
@@ -717,7 +717,7 @@ func (w *World) point(pt string, obj interface{}, args ...interface{}) {
 		w.mu.Lock()
 		if ri := w.reqGid[gid]; ri != nil {
 			// the period is the configured one (<= 0: 300 s), counted from the true clock
-			ev := Event{"op": "Hfp", "e": w.entID(obj), "d": ri.Disp, "k": ri.Key, "st": st.HasStore,
+			ev := Event{"op": "Hfp", "r": ri.Rid, "e": w.entID(obj), "d": ri.Disp, "k": ri.Key, "st": st.HasStore,
 				"now": w.Clock(), "cnow": now, "eff": w.effHfp(ri.Disp), "code_eff": int(st.ExpiredAt - w.Base - now)}
 			if w.tickInside {
 				ev["inside"] = true
